@@ -1392,12 +1392,34 @@ func (c *Client) sendSingleMsg(client *smtp.Client, message *Msg) error {
 		}
 	}
 
+	// The envelope addresses are stored with an unquoted local part (mail.Address.Address). Convert
+	// them to the RFC 5321 Mailbox syntax before anything is sent, so that an address that cannot be
+	// transmitted faithfully fails the whole message instead of being sent as a different mailbox.
+	fromPath, err := smtpMailbox(from)
+	if err != nil {
+		return &SendError{
+			Reason: ErrGetSender, errlist: []error{err}, isTemp: isTempError(err),
+			affectedMsg: message, errcode: errorCode(err),
+			enhancedStatusCode: enhancedStatusCode(err, escSupport),
+		}
+	}
+	rcptPaths := make([]string, len(rcpts))
+	for i, rcpt := range rcpts {
+		if rcptPaths[i], err = smtpMailbox(rcpt); err != nil {
+			return &SendError{
+				Reason: ErrGetRcpts, errlist: []error{err}, rcpt: []string{rcpt}, isTemp: isTempError(err),
+				affectedMsg: message, errcode: errorCode(err),
+				enhancedStatusCode: enhancedStatusCode(err, escSupport),
+			}
+		}
+	}
+
 	if c.requestDSN {
 		if c.dsnReturnType != "" {
 			client.SetDSNMailReturnOption(string(c.dsnReturnType))
 		}
 	}
-	if err = client.Mail(from); err != nil {
+	if err = client.Mail(fromPath); err != nil {
 		retError := &SendError{
 			Reason: ErrSMTPMailFrom, errlist: []error{err}, isTemp: isTempError(err),
 			affectedMsg: message, errcode: errorCode(err),
@@ -1416,8 +1438,8 @@ func (c *Client) sendSingleMsg(client *smtp.Client, message *Msg) error {
 	rcptSendErr.rcpt = make([]string, 0)
 	rcptNotifyOpt := strings.Join(c.dsnRcptNotifyType, ",")
 	client.SetDSNRcptNotifyOption(rcptNotifyOpt)
-	for _, rcpt := range rcpts {
-		if err = client.Rcpt(rcpt); err != nil {
+	for i, rcpt := range rcpts {
+		if err = client.Rcpt(rcptPaths[i]); err != nil {
 			rcptSendErr.Reason = ErrSMTPRcptTo
 			rcptSendErr.errlist = append(rcptSendErr.errlist, err)
 			rcptSendErr.rcpt = append(rcptSendErr.rcpt, rcpt)
@@ -1593,4 +1615,57 @@ func (c *Client) tls(client *smtp.Client, isEnc *bool) error {
 		*isEnc = tlsConnState.HandshakeComplete
 	}
 	return nil
+}
+
+// smtpMailbox converts an addr-spec as stored in mail.Address.Address (local part unquoted) into
+// the Mailbox syntax of RFC 5321, section 4.1.2, as used in the MAIL FROM and RCPT TO commands.
+//
+// A local part that is a Dot-string (atoms separated by single dots, UTF-8 permitted as per RFC 6531)
+// is used as it is. Any other local part is rendered as a Quoted-string with the double quote and
+// the backslash escaped, so that blanks, "<", ">", "@", "," etc. stay part of the local part.
+// Characters that cannot be represented in a Quoted-string (ASCII control characters) are refused.
+//
+// Parameters:
+//   - addr: The mail address in the form local-part@domain.
+//
+// Returns:
+//   - The address with the local part quoted where required.
+//   - An error if the local part contains a character that cannot be transmitted.
+//
+// References:
+//   - https://datatracker.ietf.org/doc/html/rfc5321#section-4.1.2
+func smtpMailbox(addr string) (string, error) {
+	local, domain := addr, ""
+	if at := strings.LastIndex(addr, "@"); at >= 0 {
+		local, domain = addr[:at], addr[at:]
+	}
+	isDotString := local != "" && local[0] != '.' && local[len(local)-1] != '.' &&
+		!strings.Contains(local, "..")
+	for i := 0; i < len(local) && isDotString; i++ {
+		char := local[i]
+		switch {
+		case char >= 'a' && char <= 'z', char >= 'A' && char <= 'Z', char >= '0' && char <= '9':
+		case char >= 0x80, char == '.':
+		case strings.IndexByte("!#$%&'*+-/=?^_`{|}~", char) >= 0:
+		default:
+			isDotString = false
+		}
+	}
+	if isDotString {
+		return addr, nil
+	}
+	quoted := strings.Builder{}
+	quoted.WriteByte('"')
+	for i := 0; i < len(local); i++ {
+		char := local[i]
+		if char < 0x20 || char == 0x7f {
+			return "", fmt.Errorf("mail address %q: local part contains a control character", addr)
+		}
+		if char == '"' || char == '\\' {
+			quoted.WriteByte('\\')
+		}
+		quoted.WriteByte(char)
+	}
+	quoted.WriteByte('"')
+	return quoted.String() + domain, nil
 }
